@@ -4,7 +4,23 @@ import json, os, sys
 HERE = os.path.dirname(os.path.dirname(os.path.abspath(__file__)))
 
 # id -> (engine, category, technique, level text, level note, design ref)
+SCOPE_NOTE = "quick: all 818 976 grammars of G(2,2,3,3) (2 nonterminals, 2 terminals, <=3 productions of length <=3; unreachable, unproductive, nullable, cyclic, ambiguous ones included) plus the 1-edit neighbourhoods of 11 seed grammars (LALR-not-SLR, LR(1)-not-LALR, dangling else, expression grammars, ...); thorough adds G(2,3,4,2), G(3,2,4,2), G(2,2,4,3)/sym, G(1,3,4,3), G(3,3,3,2)/sym and 2-edit neighbourhoods. Every grammar is rendered under a rotating presentation (struct/enum, named/tuple, `_` fields, declaration order, naming order)."
 CHECKS = {
+ "C04": ("E1 gramsweep", "model_checking",
+         "bounded-exhaustive exploration of program scopes: real generate vs. reference LALR(1) automaton (canonical LR(1) merged by core)",
+         "For every grammar of the scopes the real kiki::generate is executed and its Ok/TableConflict verdict is compared with the conflict-freeness of the reference LALR(1) automaton; any other outcome on a well-formed file is a violation. The reference is cross-checked on every grammar against an independent LR(0)+lookahead-propagation construction and against SLR/LR(1) containment. " + SCOPE_NOTE,
+         "R-gram reference automata (self-checked); names are opaque to kiki apart from hygiene (C05).",
+         "DESIGN.md section 3, C04"),
+ "C11": ("E1 gramsweep", "model_checking",
+         "bounded-exhaustive exploration of program scopes: every TableConflictErr compared field by field with the reference LALR(1) automaton",
+         "For every conflicting grammar of the scopes the public fields of the returned TableConflictErr are checked: state index in range, both items in that state, the two items demand different actions on one lookahead, attached file = input grammar, attached machine = reference LALR(1) automaton (states matched by item sets, transitions, start state). " + SCOPE_NOTE,
+         "R-gram reference automata (self-checked).",
+         "DESIGN.md section 3, C11"),
+ "C17": ("E1 gramsweep", "model_checking",
+         "bounded-exhaustive exploration of program scopes: tables extracted from the emitted text vs. reference LALR(1) tables, by state bijection",
+         "For every accepted grammar of the scopes the ACTION/GOTO tables, start state and reduce functions are read from the text the real generate emitted (token-level extractor) and put in bijection with the reference LALR(1) tables by simultaneous traversal; every cell must agree, every emitted state must be reached, state counts must agree. " + SCOPE_NOTE,
+         "R-gram reference automata (self-checked); the extractor (an unreadable text is a machinery error, never a verdict).",
+         "DESIGN.md section 3, C17"),
  "C18": ("E6 osetmc", "model_checking",
          "explicit-state model checking (stateright BFS to fixpoint) of the real Oset against a BTreeSet reference",
          "Every history of insert/extend/from_iter/new/default/clone over a 4- (quick) or 8-element (thorough) domain, with all argument sequences up to length 3 / 5 (duplicates, unsorted), is covered because the search closes: the real kiki::Oset object is the model-checker state. Per-state oracle: iteration by value / by reference / through Deref, strict order, contains; per-pair oracle over all reached objects: ==, cmp, partial_cmp, Hash are functions of the element sets and cmp is a total order.",
